@@ -90,6 +90,7 @@ prop("C06", "break / continue / lazybreak steer loops as documented", [
 
 prop("C07", "switch executes the first matching case, else default, never more", [
     ("switch_statement_outcome", "switch_statement_outcome", "FULL STATEMENT (classic form): a switch statement does exactly one of -- stop with the error of a case value; run the body of the first case, in source order, whose value equals the subject, and no other body; when no case matches run the default body if there is one, else nothing"),
+    ("scan_outcomes_condition_less", "switch_nocond_outcome", "FULL STATEMENT (condition-less form, `switch { case a == b: ... }`): the scan does exactly one of -- run the body of the first case whose comparison or helper holds, and no other; find no match (default arms are skipped by the scan); or stop with the error of a case's operands or helper. Induction over the children, any user functions"),
     ("scan_outcomes", "switch_classic_outcome", "the scan of the cases has exactly these three outcomes (induction over the cases)"),
     ("first_match_runs", "switch_first_match", "classic switch: the body that runs is that of the first case whose comparison holds; later cases are not looked at"),
     ("no_match_runs_nothing", "switch_no_match", "when no case matches nothing has run (only the default may)"),
